@@ -1017,7 +1017,17 @@ func callBuiltin(caller *frame, callpos token.Pos, fn *ssa.Builtin, args []value
 			return arg0
 		}
 		// append([]T, ...[]T) []T
-		return append(args[0].([]value), args[1].([]value)...)
+		// Aggregate elements (structs, arrays) live inline in their slot and are updated in place by
+		// store(), so the appended elements must be copies, not shared with the source slice.
+		src := args[1].([]value)
+		if et := builtinElemType(fn); et != nil && isAggregate(et) {
+			cp := make([]value, len(src))
+			for k := range src {
+				cp[k] = load(et, &src[k])
+			}
+			src = cp
+		}
+		return append(args[0].([]value), src...)
 
 	case "copy": // copy([]T, []T) int or copy([]byte, string) int
 		src := args[1]
@@ -1028,7 +1038,22 @@ func callBuiltin(caller *frame, callpos token.Pos, fn *ssa.Builtin, args []value
 			params := fn.Type().(*types.Signature).Params()
 			src = conv(params.At(0).Type(), params.At(1).Type(), src)
 		}
-		return copy(args[0].([]value), src.([]value))
+		srcv := src.([]value)
+		if et := builtinElemType(fn); et != nil && isAggregate(et) {
+			dst := args[0].([]value)
+			n := len(dst)
+			if len(srcv) < n {
+				n = len(srcv)
+			}
+			// element-wise through load, in an order that is safe for overlapping slices
+			tmp := make([]value, n)
+			for k := 0; k < n; k++ {
+				tmp[k] = load(et, &srcv[k])
+			}
+			copy(dst, tmp)
+			return n
+		}
+		return copy(args[0].([]value), srcv)
 
 	case "close": // close(chan T)
 		close(args[0].(chan value))
@@ -1151,6 +1176,26 @@ func callBuiltin(caller *frame, callpos token.Pos, fn *ssa.Builtin, args []value
 	}
 
 	panic("unknown built-in: " + fn.Name())
+}
+
+// builtinElemType returns the element type of the first (slice) parameter of append/copy.
+func builtinElemType(fn *ssa.Builtin) types.Type {
+	sig, ok := fn.Type().(*types.Signature)
+	if !ok || sig.Params().Len() == 0 {
+		return nil
+	}
+	if sl, ok := sig.Params().At(0).Type().Underlying().(*types.Slice); ok {
+		return sl.Elem()
+	}
+	return nil
+}
+
+func isAggregate(t types.Type) bool {
+	switch t.Underlying().(type) {
+	case *types.Struct, *types.Array:
+		return true
+	}
+	return false
 }
 
 func rangeIter(x value, t types.Type) iter {
